@@ -185,3 +185,64 @@ SPECS["C02"] = CheckSpec(
     technique="explicit-state BFS over operation histories on the real object against a reference set model (SEQX)",
     design_ref="DESIGN.md §3 C02", engine="SEQX",
 )
+
+
+# --------------------------------------------------------------------------- C19
+C19_BUILD = dict(flavour="asan", name="c19_addr", harness_srcs=["c19_addr.c"])
+# the determinism clause needs builds in which stale stack content survives (plain) or is tracked (msan):
+# ASan's interceptors scribble over the painted stack
+C19_PLAIN = dict(flavour="plain", name="c19_addr", harness_srcs=["c19_addr.c"])
+C19_MSAN = dict(flavour="msan", name="c19_addr", harness_srcs=["c19_addr.c"])
+
+
+def c19_jobs(tier, repo):
+    jobs = [Job("c19_addr", C19_BUILD, ["--mode=buflen"], "buflen 0..47")]
+    if tier == "quick":
+        jobs.append(Job("c19_addr", C19_BUILD, ["--mode=v4addr"], "v4 boundary octets^4"))
+        for i in range(4):
+            jobs.append(Job("c19_addr", C19_BUILD, ["--mode=v6addr", "--nvals=4", "--shard=%d" % i, "--nshards=4"],
+                            "v6 4 values^8 shard %d/4" % i))
+        for i in range(8):
+            jobs.append(Job("c19_addr", C19_BUILD, ["--mode=strings", "--maxlen=8", "--shard=%d" % i, "--nshards=8"],
+                            "strings len<=8 shard %d/8" % i))
+        jobs.append(Job("c19_addr", C19_PLAIN, ["--mode=strings", "--maxlen=8"], "strings len<=8 (plain build, stack paint)"))
+        jobs.append(Job("c19_addr", C19_MSAN, ["--mode=strings", "--maxlen=7"], "strings len<=7 (msan shadow)"))
+    else:
+        for i in range(32):
+            jobs.append(Job("c19_addr", C19_BUILD, ["--mode=v4addr", "--full", "--shard=%d" % i, "--nshards=32"],
+                            "v4 all 2^32 shard %d/32" % i))
+        for i in range(16):
+            jobs.append(Job("c19_addr", C19_BUILD, ["--mode=v6addr", "--nvals=6", "--shard=%d" % i, "--nshards=16"],
+                            "v6 6 values^8 shard %d/16" % i))
+        for i in range(32):
+            jobs.append(Job("c19_addr", C19_BUILD, ["--mode=strings", "--maxlen=10", "--shard=%d" % i, "--nshards=32"],
+                            "strings len<=10 shard %d/32" % i))
+        for i in range(8):
+            jobs.append(Job("c19_addr", C19_PLAIN, ["--mode=strings", "--maxlen=10", "--shard=%d" % i, "--nshards=8"],
+                            "strings len<=10 shard %d/8 (plain build, stack paint)" % i))
+        for i in range(8):
+            jobs.append(Job("c19_addr", C19_MSAN, ["--mode=strings", "--maxlen=9", "--shard=%d" % i, "--nshards=8"],
+                            "strings len<=9 shard %d/8 (msan shadow)" % i))
+    return jobs
+
+
+SPECS["C19"] = CheckSpec(
+    "C19", c19_jobs,
+    rule="case = one address or one string; addresses: IPv4 boundary octets^4 (thorough: all 2^32), IPv6 with every "
+         "16-bit group from a small value set in all 8 positions (covers every position and length of zero runs and "
+         "the embedded-IPv4 forms); strings: every string over {0,1,f,:,.,g} up to length 8 (thorough 10) plus every "
+         "truncation, single-character substitution, insertion and deletion of 38 seed texts; output buffers of every "
+         "length 0..47 at exact heap size; states = cases, transitions = library/platform calls; each parse runs "
+         "twice with different stack paint and output pre-fill; non-trivial/distinct = outcome classes observed",
+    assumptions=["glibc inet_pton is the platform parser", "strings outside the alphabet/seed neighbourhood are not "
+                 "enumerated", "ASan heap red zones make writes beyond the stated buffer length visible"],
+    counters_map={"executions": ["transitions"], "distinct": ["distinct_outcomes"]},
+    level_text="Exhaustive enumeration of structured input spaces (all short strings over an alphabet that contains "
+               "every syntactic role, all addresses over group/octet value sets, all buffer lengths) against the "
+               "platform parser as independent oracle; thorough covers all 2^32 IPv4 addresses. The determinism clause "
+               "is decided by running every parse twice under different stack contents.",
+    level_note="Oracle = glibc inet_pton / own comparison; trusts ASan for out-of-bounds writes; stack painting makes "
+               "reads of uninitialised locals observable as differing results.",
+    technique="exhaustive input enumeration on the real code against the platform parser (INX)",
+    design_ref="DESIGN.md §3 C19", engine="INX",
+)
